@@ -87,14 +87,11 @@ Qed.
 
 (** negotiation: hold := min(own, proposed); keepalive period := hold/3 *)
 Lemma negotiate_min h w : let w' := negotiate_hold_time h w in
-  (N.min (w_hold w) h = 0 \/ 3 <= N.min (w_hold w) h) ->
+  (h = 0 \/ 3 <= h) -> (N.min (w_hold w) h = 0 \/ 3 <= N.min (w_hold w) h) ->
   w_hold w' = N.min (w_hold w) h /\ w_ka3 w' = N.min (w_hold w) h /\ w_out w' = w_out w /\ w_state w' = w_state w.
 Proof.
-  intros w' Hok. unfold w', negotiate_hold_time. cbv zeta. cbn [w_hold set_w_hold].
-  destruct (negb (N.min (w_hold w) h =? 0) && (N.min (w_hold w) h <? 3)) eqn:E.
-  - exfalso. apply andb_true_iff in E. destruct E as [E1 E2].
-    apply negb_true_iff, N.eqb_neq in E1. apply N.ltb_lt in E2. lia.
-  - cbn. repeat split; reflexivity.
+  intros w' Hp Hok. unfold w', negotiate_hold_time. cbv zeta. cbn [w_hold set_w_hold].
+  rewrite (hold_refused_false h _ Hp Hok). cbn. repeat split; reflexivity.
 Qed.
 
 (** the peer's acceptable OPEN in OpenSent (after negotiation, hold = H): KEEPALIVE sent,
